@@ -120,6 +120,7 @@ def run(ctx):
         # second consequence: a LITERAL of a kind outside the allowed set is rejected
         kinds = {"Integer:long": ast.Integer("-9223372036854775808"), "Integer:zeros": ast.Integer("00000000000000000042"), "Integer:huge": ast.Integer("9" * 40), "Float:big": ast.Float("1e400"),
                  "String:date-like": ast.String("2020-01-01"), "Boolean:upper": ast.Boolean("TRUE"), "Duration": ast.Duration("P" + "9" * 30 + "D"),
+                 "Null": ast.Null(), "Geography": ast.Geography("POINT(1 2)"), "Duration:short": ast.Duration("P1D"),
                  "Integer": ast.Integer("5"), "Float": ast.Float("2.5"), "String": ast.String("ab"), "Boolean": ast.Boolean("true"), "Date": ast.Date("2020-01-01"),
                  "DateTime": ast.DateTime("2020-01-01T10:00:00Z"), "List": ast.List([ast.Integer("1")]), "Time": ast.Time("12:00:00"), "GUID": ast.GUID("01234567-89ab-cdef-0123-456789abcdef")}
         for kname, lit in kinds.items():
